@@ -27,14 +27,47 @@ def _run(case):
     return case, p.returncode, (p.stdout + p.stderr)[-600:]
 
 
+def _demos(prop):
+    """The demonstrations written by the independent agents for the seeded changes of this property: each is a native oracle for
+    the property on one specific scenario (exit 0 on a tree where the property holds there, exit 1 otherwise)."""
+    sd = os.path.join(ROOT, "seeded")
+    out = []
+    for d in sorted(os.listdir(sd)) if os.path.isdir(sd) else []:
+        if d.split("-")[0].rstrip("bcdefg") != prop:
+            continue
+        for f in sorted(os.listdir(os.path.join(sd, d))):
+            if f.startswith("demo") and f.endswith(".py"):
+                out.append((d, os.path.join(sd, d, f)))
+    return out
+
+
+def _run_demo(item):
+    d, path = item
+    env = {**os.environ, "PYTHONPATH": os.environ.get("PVC_REPO", "/repo")}
+    p = subprocess.run([sys.executable, path], capture_output=True, text=True, timeout=300, env=env, cwd=os.path.dirname(path))
+    return d, path, p.returncode, (p.stdout + p.stderr)[-600:]
+
+
 def native_checks(prop, tier):
     cases = sorted(c for c, props in _index().items() if prop in props)
-    if not cases:
+    # when the machinery itself is being measured against the seeded changes (canaries, tools_seeded_report.py) the oracle written for
+    # a change must not be what reports it
+    demos = [] if os.environ.get("PVC_NO_DEMOS") else _demos(prop)
+    if not cases and not demos:
         return None
     known, viol = [], []
     n_ok = 0
     with cf.ThreadPoolExecutor(8) as ex:
         results = list(ex.map(_run, cases))
+        demo_results = list(ex.map(_run_demo, demos))
+    for d, path, rc, out in demo_results:
+        if rc == 0:
+            n_ok += 1
+        elif rc == 1:
+            script = f"import os, subprocess, sys\nsys.exit(subprocess.call([sys.executable, {path!r}], env={{**os.environ, 'PYTHONPATH': os.environ.get('PVC_REPO', '/repo')}}))\n"
+            known.append({"obligation": f"{prop}/demo/{d}", "what_fails": out.strip()[-300:], "model": {"output": out[-400:]}, "script": script})
+        else:
+            raise RuntimeError(f"demo of {d} crashed (exit {rc}): {out}")
     for case, rc, out in results:
         name = f"{prop}/scenario/{case}"
         script = f"import subprocess, sys\nsys.exit(subprocess.call([sys.executable, {CASES_PY!r}, {case!r}]))\n"
@@ -45,6 +78,7 @@ def native_checks(prop, tier):
                           "model": {"output": out[-400:]}, "script": script})
         else:
             raise RuntimeError(f"scenario {case} crashed (exit {rc}): {out}")
-    return {"bounded": [{"unit": "native:scenario-corpus", "bound": f"{len(cases)} recorded scenarios of this property, each replayed in a fresh process",
-                         "obligations": len(cases), "discharged": n_ok}],
+    return {"bounded": [{"unit": "native:scenario-corpus", "bound": f"{len(cases)} recorded scenarios and {len(demos)} scenario oracles written for the seeded changes of this property, "
+                                                                    "each run in a fresh process",
+                         "obligations": len(cases) + len(demos), "discharged": n_ok}],
             "known": known, "violations": viol, "summary": {"scenarios": len(cases), "reproduced": [k["obligation"] for k in known]}}
